@@ -222,6 +222,10 @@ def recipes(ctx):
     for il in (0, 4, 16, 65536):
         extra.append(B.vhdx(item_length=il, tail=4096).data)
     extra.append(B.gpt_disk().data)
+    # the FAT exclusion needs BOTH boot-sector fields: every pair of values around them
+    for nf in (1, 2, 3):
+        for md in (0xF0, 0xF7, 0xF8, 0xF9):
+            extra.append(F.overlay(B.mbr([B.PTE_LINUX]).data, (0x10, bytes([nf])), (0x15, bytes([md]))))
     # signature near-misses: a clean image of each format with ONE byte of its signature
     # altered (low bit, letter case, high bit, zeroed) - nothing may still be named that format
     done = set()
